@@ -95,8 +95,12 @@ func init() {
 		}
 		if enq != nil && flag != "" && enq.Type.Results != nil && len(enq.Type.Results.List) == 1 && f.Str(enq.Type.Results.List[0].Type) == "bool" {
 			b := c17Plain(f, enq.Body.List)
-			if len(b) > 2 && f.Str(b[2]) == "if q."+flag+" { return false }" {
-				marks++
+			if len(b) > 2 {
+				if is, ok := b[2].(*ast.IfStmt); ok && f.Str(is.Cond) == "q."+flag && is.Else == nil && is.Init == nil {
+					if in := c17Plain(f, is.Body.List); len(in) == 1 && f.Str(in[0]) == "return false" {
+						marks++
+					}
+				}
 			}
 		}
 		if rem != nil && flag != "" {
